@@ -8,7 +8,7 @@ from harness.plans import plan
 ID = "C15"
 
 UNARY = ["sin", "cos", "tanh", "exp", "log1p_abs", "square", "neg", "abs", "sigmoid", "sqrt1p", "floor", "int_roundtrip", "clip", "relu_where", "sign_mul",
-         "relu", "softplus", "complex_roundtrip", "fft_power", "guarded_sqrt", "top2", "switch3", "leaky_selu"]
+         "relu", "softplus", "complex_roundtrip", "fft_power", "guarded_sqrt", "top2", "switch3", "leaky_selu", "ste_round", "declared_rule", "relu_at_kink"]
 BINARY = ["add", "sub", "mul", "div", "maximum", "where_gt"]
 
 
@@ -57,6 +57,22 @@ def apply_unary(op, x):
     if op == "fft_power":
         v = jnp.atleast_1d(x)
         return jnp.sum(jnp.abs(jnp.fft.fft(v.reshape(-1))) ** 2) + 0.0 * x
+    if op == "ste_round":  # custom_jvp whose declared rule (straight-through) is not the derivative of its body
+        @jax.custom_jvp
+        def ste(v):
+            return jnp.round(v)
+
+        ste.defjvp(lambda p, t: (jnp.round(p[0]), t[0]))
+        return ste(x) * x
+    if op == "declared_rule":  # custom_jvp with a declared tangent 3 * cos(v) * t for the body sin(v)
+        @jax.custom_jvp
+        def f(v):
+            return jnp.sin(v)
+
+        f.defjvp(lambda p, t: (jnp.sin(p[0]), 3.0 * jnp.cos(p[0]) * t[0]))
+        return f(x) + 0.5 * x
+    if op == "relu_at_kink":  # jax.nn.relu evaluated exactly at 0 (declared derivative 0 there)
+        return jax.nn.relu(x - jax.lax.stop_gradient(x)) + jax.nn.relu(x * 0.0) + x
     if op == "guarded_sqrt":  # lax.cond guarding a branch whose derivative is singular where the other branch is taken
         v = jnp.sum(x)
         return jax.lax.cond(v > 0.0, lambda z: jnp.sqrt(z) * z, lambda z: -2.0 * z, v) + 0.0 * x
@@ -277,10 +293,10 @@ def one_case(ctx, case):
     env.reset()
     fails, info = classify(case)
     kinds = {i[0] for i in case["prog"]}
-    nondiff = any(i[0] == "un" and i[1] in ("floor", "int_roundtrip", "relu_where", "sign_mul", "clip", "relu", "top2", "switch3", "guarded_sqrt") for i in case["prog"]) or any(i[0] == "index" and i[1] in ("gather_computed", "argmax") for i in case["prog"])
+    nondiff = any(i[0] == "un" and i[1] in ("floor", "int_roundtrip", "relu_where", "sign_mul", "clip", "relu", "top2", "switch3", "guarded_sqrt", "ste_round", "relu_at_kink") for i in case["prog"]) or any(i[0] == "index" and i[1] in ("gather_computed", "argmax") for i in case["prog"])
     nt = (len(case["prog"]) >= 3 and bool(kinds & {"shape", "index", "linalg", "reduce"})) or nondiff or case["argspec"] in ("dict", "tuple_nested")
     ctx.case(case, nt, [f"C15.args_{case['argspec']}"] + [f"C15.op_{k}" for k in sorted(kinds)] + (["C15.nondifferentiable_intermediate"] if nondiff else []) +
-             [f"C15.cond_{i[1]}" for i in case["prog"] if i[0] == "cond"] + [f"C15.special_{i[1]}" for i in case["prog"] if i[0] == "un" and i[1] in ("relu", "complex_roundtrip", "fft_power", "guarded_sqrt", "top2", "switch3")],
+             [f"C15.cond_{i[1]}" for i in case["prog"] if i[0] == "cond"] + [f"C15.special_{i[1]}" for i in case["prog"] if i[0] == "un" and i[1] in ("relu", "complex_roundtrip", "fft_power", "guarded_sqrt", "top2", "switch3", "ste_round", "declared_rule", "relu_at_kink")],
              sample={**case, "info": info})
     for b, w in fails:
         ctx.fail(b, w, case)
